@@ -9,7 +9,7 @@ From Coq Require Import List Ascii ZArith Bool.
 From CGV Require Import Base.PyBase Base.PyVal Gen.FragGen Dialect.DialectImpl Frag.NDict Frag.StripImpl Frag.FragText
      Frag.StripFacts Frag.FragProofs Frag.FragStages Frag.FragSmall Frag.RingProofs
      Gen.SmilesGen Frag.SmilesParse Frag.SmilesSpec Frag.SmilesProofs Frag.SmilesIndex Frag.SmilesRelabel Frag.SmilesPerm
-     Frag.Template Frag.TemplateProofs Frag.TemplateFinal Frag.TemplateGraph Frag.TemplateCompose Frag.SmilesReverse.
+     Frag.Template Frag.TemplateProofs Frag.TemplateFinal Frag.TemplateGraph Frag.TemplateCompose Frag.SmilesReverse Frag.SmilesPermR.
 From CGV Require Import Base.NxGraph Compose.CutModel Compose.CutSpecDefs.
 Local Open Scope nat_scope.
 Import ListNotations.
@@ -277,6 +277,39 @@ Theorem C01_branch_order_text_partial : forall x pa pb y g c,
   | _, _ => False
   end.
 Proof. exact swap_branches_text. Qed.
+(** the same with ring-bond markers INSIDE the swapped branches: every ring bond a branch opens is closed
+    inside it ([rings_local]) and its ring numbers are not open in the text before it ([fresh], trivial
+    when no ring bond is open there); the two branches may use the same numbers *)
+Theorem C01_branch_order_rings_partial : forall x pa pb y g c,
+  grun false ginit x = Ok g -> q_cur g = Some c -> q_pend g = None ->
+  is_rblock pa = true -> is_rblock pb = true -> rings_local pa = true -> rings_local pb = true -> fresh g pa -> fresh g pb ->
+  let s := swap_sigma (q_n g) (count_atoms pa) (count_atoms pb) in
+  match graph_of false (x ++ pa ++ pb ++ y), graph_of false (x ++ pb ++ pa ++ y) with
+  | Ok G, Ok H => exists n, graph_perm s n G H
+  | Err e, Err e' => e = e'
+  | _, _ => False
+  end.
+Proof. exact swap_rbranches. Qed.
+Theorem C01_branch_order_rings_text_partial : forall x pa pb y g c,
+  wf_smiles (x ++ pa ++ pb ++ y) = true -> wf_smiles (x ++ pb ++ pa ++ y) = true ->
+  grun false ginit x = Ok g -> q_cur g = Some c -> q_pend g = None ->
+  is_rblock pa = true -> is_rblock pb = true -> rings_local pa = true -> rings_local pb = true -> fresh g pa -> fresh g pb ->
+  let s := swap_sigma (q_n g) (count_atoms pa) (count_atoms pb) in
+  match smiles_parse (render_smiles false (x ++ pa ++ pb ++ y)), smiles_parse (render_smiles false (x ++ pb ++ pa ++ y)) with
+  | Ok G, Ok H => exists n, graph_perm s n G H
+  | Err e, Err e' => e = e'
+  | _, _ => False
+  end.
+Proof. exact swap_rbranches_text. Qed.
+Example C01_branch_order_rings_nonvacuous :
+  to_string (render_smiles false (rs_x ++ rs_pa ++ rs_pb ++ rs_y)) = "CC(c1ccccc1)(C1CC1)N"%string /\
+  to_string (render_smiles false (rs_x ++ rs_pb ++ rs_pa ++ rs_y)) = "CC(C1CC1)(c1ccccc1)N"%string /\
+  wf_smiles (rs_x ++ rs_pa ++ rs_pb ++ rs_y) = true /\ wf_smiles (rs_x ++ rs_pb ++ rs_pa ++ rs_y) = true /\
+  is_rblock rs_pa = true /\ is_rblock rs_pb = true /\ rings_local rs_pa = true /\ rings_local rs_pb = true /\
+  (exists g, grun false ginit rs_x = Ok g /\ q_cur g = Some 1 /\ q_pend g = None /\ q_open g = []) /\
+  (exists G H, graph_of false (rs_x ++ rs_pa ++ rs_pb ++ rs_y) = Ok G /\ graph_of false (rs_x ++ rs_pb ++ rs_pa ++ rs_y) = Ok H /\
+     length (g_nodes G) = 12 /\ length (g_edges G) = 13 /\ G <> H).
+Proof. exact rswap_example. Qed.
 (** the general tool behind it: a state simulation under any index permutation that is the identity
     above the node counter holds along every continuation of the token list *)
 Theorem C01_permutation_simulation : forall s toks g h, sigma_ok s (q_n g) -> PSim s g h ->
@@ -359,3 +392,4 @@ Print Assumptions C13_template_final_of_render.
 Print Assumptions C13_template_is_template_partial.
 Print Assumptions C13_template_is_template_checked.
 Print Assumptions C01_start_atom_chain_partial.
+Print Assumptions C01_branch_order_rings_partial.
